@@ -3,8 +3,8 @@
 import json, os, subprocess
 VERIF = os.path.dirname(os.path.dirname(os.path.abspath(__file__)))
 
-TRUSTED = ("Trusted: the scheduler's model of pthread mutex/condvar/semaphore/join/once/futex semantics; sequentially consistent "
-           "interleavings at instrumented-access granularity only (no C++/x86-TSO reorderings); accesses made by uninstrumented code "
+TRUSTED = ("Trusted: the scheduler's model of pthread mutex/condvar/semaphore/join/once/futex semantics; interleavings at "
+           "instrumented-access granularity, sequentially consistent or with x86-TSO store buffering (weaker C++-model reorderings are not explored); accesses made by uninstrumented code "
            "(libc, libstdc++.so internals) are neither scheduling points nor shadow-checked; seeded sampling, not exhaustive.")
 
 CLAIMED = {
